@@ -137,6 +137,24 @@ def program(events: Iterable[Tuple]) -> bytes:
     return b" ".join(tokens(events))
 
 
+WS = b"\x00\t\n\x0c\r "
+
+
+def ws_cuts(raw: bytes):
+    """offsets at which ``raw`` can be divided "at white space": directly before and directly after every white-space
+    byte, wherever that byte lies (between tokens, inside a literal or hex string, a comment, an array, a dictionary).
+    Returns (cuts with the white-space byte kept on the left, all cuts)."""
+    left, allc = [], set()
+    for i, c in enumerate(raw):
+        if c in WS:
+            if 0 < i + 1 < len(raw):
+                left.append(i + 1)
+                allc.add(i + 1)
+            if 0 < i < len(raw):
+                allc.add(i)
+    return left, sorted(allc)
+
+
 def ev_from_json(e) -> Tuple:
     """events survive jenc/jdec as tuples already; lists (from older artefacts) are coerced"""
     def conv(o):
